@@ -9,6 +9,7 @@ import (
 	"time"
 
 	log "github.com/go-spring/log"
+	"github.com/go-spring/log/verifsim"
 )
 
 // EvOp is one logging call a client task makes.
@@ -56,6 +57,12 @@ type hookStats struct {
 	mu                      sync.Mutex
 	timeCalls, strCalls, fldCalls map[evKey]int
 	genCalls                map[evKey]int
+	byTask                  map[evKey][]string // names of the tasks that invoked a hook for this call
+}
+
+func (h *hookStats) noteTask(k evKey) {
+	_, name := verifsim.CurrentTask()
+	h.byTask[k] = append(h.byTask[k], name)
 }
 
 var hooks = &hookStats{}
@@ -63,6 +70,7 @@ var hooks = &hookStats{}
 func resetHooks() {
 	hooks.mu.Lock()
 	hooks.timeCalls, hooks.strCalls, hooks.fldCalls, hooks.genCalls = map[evKey]int{}, map[evKey]int{}, map[evKey]int{}, map[evKey]int{}
+	hooks.byTask = map[evKey][]string{}
 	hooks.mu.Unlock()
 }
 
@@ -89,6 +97,7 @@ func installHooks(timeHook, strHook, fldHook bool) {
 			k, _ := ctx.Value(ctxKey).(evKey)
 			hooks.mu.Lock()
 			hooks.timeCalls[k]++
+			hooks.noteTask(k)
 			hooks.mu.Unlock()
 			return evTime(k)
 		}
@@ -98,6 +107,7 @@ func installHooks(timeHook, strHook, fldHook bool) {
 			k, _ := ctx.Value(ctxKey).(evKey)
 			hooks.mu.Lock()
 			hooks.strCalls[k]++
+			hooks.noteTask(k)
 			hooks.mu.Unlock()
 			if k.ctxMode&1 != 0 {
 				return ctxString(k)
@@ -110,6 +120,7 @@ func installHooks(timeHook, strHook, fldHook bool) {
 			k, _ := ctx.Value(ctxKey).(evKey)
 			hooks.mu.Lock()
 			hooks.fldCalls[k]++
+			hooks.noteTask(k)
 			hooks.mu.Unlock()
 			if k.ctxMode&2 != 0 {
 				return ctxFields(k)
